@@ -1,6 +1,6 @@
 # C08 - state entities serialize losslessly and canonically (builder b07)
 _CDC = "verifharness/checks/codecchk"
-WIP["C08"] = dict(
+CHECKS["C08"] = dict(
     level="exploration", engine="E2 + source scan",
     technique="property-based round-trip testing with a reflective value generator over every codec type of the working tree (source scan at check time), metamorphic test on map insertion order, migration round trips for versioned entities",
     level_text="The registry of types is generated from the sources (every named type with MarshalMsg and UnmarshalMsg, at least one of them its own; 148 types in 22 packages at this commit) and compared with a fresh source scan at check time (types_covered / types_found in the evidence; a type missing from the registry stops the run as inconclusive). Per case one type and one reflectively generated value (all exported and unexported fields, nil / empty / filled containers, boundary and maximal numbers, odd strings, versioned wrappers with an entity of a drawn registered version): dec(enc(x)) must succeed and consume all bytes, enc(dec(enc(x))) == enc(x), dec(enc(x)) must equal x on every exported field not declared transient, encoding must be repeatable and independent of map insertion order. Versioned part: entities of version n are stored, read back (must stay version n), migrated with Wrapper.Update to n+1 (every field common to both version structs and Wrapper.Base() must be unchanged), stored and read again, and bytes naming an unregistered version must be refused.",
